@@ -27,6 +27,18 @@ pub fn exercise(input: &str, ext_bits: u32) -> Vec<(String, String)> {
         let parser = CooklangParser::new(ext, conv);
         let tag = |s: &str| format!("{s}[conv={ci}]");
         g!(tag("parse_metadata"), { let m = parser.parse_metadata(input); let mut buf = Vec::new(); let _ = m.report().write("r", input, false, &mut buf); });
+        g!(tag("parse_with_options"), {
+            let opts = || cooklang::analysis::ParseOptions {
+                recipe_ref_check: Some(Box::new(|name: &str| if name.contains('a') { cooklang::analysis::CheckResult::Error(vec!["no such recipe".into()]) } else { cooklang::analysis::CheckResult::Warning(vec![]) })),
+                metadata_validator: Some(Box::new(|k: &serde_yaml::Value, _v: &serde_yaml::Value, o: &mut cooklang::analysis::CheckOptions| {
+                    let ks = k.as_str().unwrap_or("");
+                    if ks.starts_with('t') { o.run_std_checks(false); }
+                    if ks.contains('e') { o.include(false); cooklang::analysis::CheckResult::Error(vec!["rejected".into()]) } else { cooklang::analysis::CheckResult::Warning(vec!["w".into()]) }
+                })),
+            };
+            let r = parser.parse_with_options(input, opts()); let mut buf = Vec::new(); let _ = r.report().write("r", input, false, &mut buf);
+            let m = parser.parse_metadata_with_options(input, opts()); let _ = m.report().write("r", input, true, &mut buf);
+        });
         let Some(res) = g!(tag("parse"), parser.parse(input)) else { continue };
         g!(tag("report.write"), { for color in [false, true] { let mut buf = Vec::new(); let _ = res.report().write("r.cook", input, color, &mut buf); } });
         let Some(recipe) = res.output() else { continue };
